@@ -1000,6 +1000,7 @@ func (r *codecRun) snappyOp() {
 			out = []byte("error:" + err.Error())
 		}
 		r.emit("BatDec", trace.F{"codec": "snappybig", "b": b, "out": []int{r.bid("raw", out)}})
+		r.snappyDamaged(rd, "snappybig", data, b, func(o []byte) any { return []int{r.bid("raw", o)} })
 		return
 	}
 	nrows := r.rng.Intn(6)
@@ -1025,6 +1026,7 @@ func (r *codecRun) snappyOp() {
 		out = []byte("error:" + err.Error())
 	}
 	r.emit("BatDec", trace.F{"codec": "snappy", "b": b, "out": bytesToInts(out)})
+	r.snappyDamaged(rd, "snappy", data, b, func(o []byte) any { return bytesToInts(o) })
 	// a chunk handed out earlier by the SAME writer is still held by its consumer (the replication channel
 	// queues compressed chunks): it must still decode to what was written into it
 	if r.snapHeldW == w && r.snapHeld != nil {
@@ -1035,6 +1037,32 @@ func (r *codecRun) snappyOp() {
 		r.emit("BatDec", trace.F{"codec": "snappy", "b": r.snapHeldB, "out": bytesToInts(old)})
 	}
 	r.snapHeld, r.snapHeldB, r.snapHeldW = data, b, w
+}
+
+// snappyDamaged: the SAME reader gets a damaged copy of the chunk (a truncated or bit-flipped tail: the leading blocks
+// of a chunk of several blocks still decode, the failure comes later), whatever it answers is an observation (`BatBad`);
+// the intact chunk decoded by that reader right afterwards must still answer exactly what was written into it (the
+// replicator's reader meets damaged log entries and goes on with the next one)
+func (r *codecRun) snappyDamaged(rd compress.Reader, codec string, data []byte, b int, project func([]byte) any) {
+	if len(data) < 4 || r.rng.Intn(2) == 0 {
+		return
+	}
+	bad := append([]byte(nil), data...)
+	switch r.rng.Intn(3) {
+	case 0:
+		bad = bad[:len(bad)/2+r.rng.Intn(len(bad)-len(bad)/2)]
+	case 1:
+		bad[len(bad)-1-r.rng.Intn(len(bad)/3+1)] ^= byte(1 + r.rng.Intn(255))
+	default:
+		bad = bad[:len(bad)-1]
+	}
+	_, err := rd.Uncompress(bad)
+	r.emit("BatBad", trace.F{"codec": codec, "b": b, "err": err != nil})
+	out, err := rd.Uncompress(data)
+	if err != nil {
+		out = []byte("error:" + err.Error())
+	}
+	r.emit("BatDec", trace.F{"codec": codec, "b": b, "out": project(out)})
 }
 
 // the XOR value codec alone, over one reused bit writer / reader pair
